@@ -44,6 +44,27 @@ X509_CHECK_FLAG_ALWAYS_CHECK_SUBJECT, X509_CHECK_FLAG_NO_WILDCARDS = 0x1, 0x2
 EINVAL, EPROTO = 22, 71
 
 
+def socket_of(fn, nid):
+    """the socket parameter(s) an access path is rooted in: `bts->x` with `bts = TOBTLS(s)` and `TOBTLS(s)->x` both give {s}"""
+    x = fn.strip(nid)
+    while fn.nodes[x]["k"] in ("member", "index") or (fn.nodes[x]["k"] == "un" and fn.nodes[x]["op"] in ("*", "&")):
+        m = fn.nodes[x]
+        x = fn.strip(m["base"] if m["k"] in ("member", "index") else m["sub"])
+    out, seen, work = set(), set(), [x]
+    while work:
+        y = fn.origin(work.pop())
+        if y in seen:
+            continue
+        seen.add(y)
+        for z in fn.walk(y):
+            m = fn.nodes[z]
+            if m["k"] == "ref" and m.get("dk") == "param":
+                out.add(m["name"])
+            elif m["k"] == "ref" and m.get("dk") == "local" and z != y and len(seen) < 40:
+                work.append(z)      # the private-data macros go through statement-expression temporaries
+    return frozenset(out)
+
+
 class Handshake(S.SeqRule):
     """R1: user = (ssl_new, verify_ok, vpn, host call nid)"""
 
@@ -74,6 +95,10 @@ class Handshake(S.SeqRule):
         new, ver, vpn, host = st.user
         if name == "SSL_new":
             return (True, ver, vpn, host)
+        if name == self.sv.name and len(self.sv.params) == 1:
+            # the helper takes the socket's record and reads the policy fields itself: the record must be the one whose
+            # connection is put into the handshaking state (checked at that store)
+            return (new, ("record", socket_of(fn, n["args"][0])), vpn, host)
         if name == self.sv.name:
             # the four policy arguments are the socket's own fields, in the callee's parameter order
             ok = True
@@ -103,6 +128,14 @@ class Handshake(S.SeqRule):
             return None
         self.nhs += 1
         new, ver, vpn, host = st.user
+        if isinstance(ver, tuple):
+            if not ver[1] or ver[1] != socket_of(fn, lhs):
+                if "roots" not in self.bad:
+                    self.bad.add("roots")
+                    self.rule.violation("%s:set_verify:other-socket" % self.root.name, "%s configures the SSL object with the policy of a different socket" % self.root.name, loc=fn.loc(nid))
+                ver = False
+            else:
+                ver = True
         if not new or not ver:
             if "order" not in self.bad:
                 self.bad.add("order")
@@ -128,6 +161,63 @@ class Handshake(S.SeqRule):
         else:
             self.rule.ok("%s: handshake after SSL_new and set_verify(socket's own policy)" % self.root.name, "path exploration")
         return None
+
+
+def check_inheritance(P, bt, sv, r5):
+    """policy inheritance server -> accepted connection (C09.R5; also run as C11.R9)"""
+    rec = P.record("btls_socket")
+    # policy fields: everything of the socket record that the policy functions read
+    policy_readers = [sv, P.fn("finalize_tls_conf"), P.fn("enable_hostname_validation"), bt.slots["connect"], bt.slots["accept"]]
+    cand = set()
+    top_fields = {fl["name"]: (fl.get("type") or fl.get("t") or "") for fl in rec["fields"]}
+    for f in policy_readers:
+        for n in f.nodes.values():
+            if n["k"] == "member" and n.get("record") == "btls_socket" and n["field"] in top_fields:
+                t = top_fields[n["field"]]
+                if t in ("_Bool", "bool") or t.startswith("struct item") or "slist" in t:
+                    cand.add(n["field"])
+    policy = sorted(x for x in cand if not x.endswith("_set"))
+    if len(policy) < 9:
+        raise Broken("C09.R5: only %d policy fields recognised: %s" % (len(policy), policy))
+    inh = P.fn("inherit_tls_conf")
+    covered = set()
+    conditional = {}
+
+    def copy_site(fld, blk_id):
+        """the copy of a field must happen whatever the OTHER fields hold: it may depend on tests of the same field only
+        (a list is cloned only if there is one)"""
+        covered.add(fld)
+        for b, cond in C.cond_blocks(inh):
+            tested = {inh.nodes[x]["field"] for x in inh.walk(cond) if inh.nodes[x]["k"] == "member" and inh.nodes[x].get("field")}
+            if tested and fld not in tested:
+                tv, fv = C.only_via_edge(inh, b, "T"), C.only_via_edge(inh, b, "F")
+                if blk_id in tv or blk_id in fv:
+                    conditional[fld] = inh.show(cond)
+    for b, i, e, lhs, rhs, op in inh.stores():
+        ln = inh.sn(lhs)
+        if ln["k"] == "member" and rhs is not None:
+            srcs = {inh.nodes[x]["field"] for x in inh.walk(rhs) if inh.nodes[x]["k"] == "member" and inh.nodes[x].get("record") == "btls_socket"}
+            if ln["field"] in srcs:
+                copy_site(ln["field"], b.id)
+    for c in inh.calls("item_copy"):
+        a = inh.nodes[c]["args"]
+        f0, f1 = inh.fields_of(a[0])[-1:], inh.fields_of(a[1])[-1:]
+        if f0 == f1 and f0:
+            copy_site(f0[0], inh.where()[c][0])
+    for fld in policy:
+        r5.instance("btls_socket.%s" % fld)
+        if fld in covered and fld in conditional:
+            r5.violation("inherit_tls_conf:%s:conditional" % fld, "policy field %s is inherited only when `%s` holds - a test of a different field: a server without that "
+                         "setting hands its accepted connections the default of %s instead of its own" % (fld, conditional[fld], fld), loc=inh.file)
+        elif fld in covered:
+            r5.ok("%s is copied from the parent" % fld, "field coverage")
+        else:
+            r5.violation("inherit_tls_conf:%s" % fld, "policy field %s is not inherited from the server socket: accepted connections run with the default "
+                         "instead of the server's setting" % fld, loc=inh.file)
+    # init calls it for accepted sockets
+    ini = bt.slots["init"]
+    if not any(True for _ in ini.calls("inherit_tls_conf")):
+        r5.violation("%s:no-inherit" % ini.name, "init does not inherit the parent's TLS configuration", loc=ini.file)
 
 
 def run(ctx):
@@ -167,7 +257,14 @@ def run(ctx):
     # ------------------------------------------------------------------ R2
     r2 = ctx.rule("C09.R2", "set_verify's decision table equals the documented one for all 16 policy combinations")
     names = [p["name"] for p in sv.params[1:]]
-    if names != ["tls_client", "tls_auth", "check_crl", "check_time"]:
+    POL = ["tls_client", "tls_auth", "check_crl", "check_time"]
+    record_form = len(sv.params) == 1 and "*" in (sv.params[0].get("t") or "")
+    if record_form:
+        # the helper reads the four policy fields from the socket record it is given
+        read = {n["field"] for n in sv.nodes.values() if n["k"] == "member"}
+        if not set(POL) <= read:
+            raise Broken("C09.R2: set_verify(record) does not read %s" % sorted(set(POL) - read))
+    elif sorted(names) != sorted(POL):
         raise Broken("C09.R2: set_verify parameters are %s" % names)
     for mask in range(16):
         vals = {"tls_client": mask & 1, "tls_auth": (mask >> 1) & 1, "check_crl": (mask >> 2) & 1, "check_time": (mask >> 3) & 1}
@@ -181,7 +278,13 @@ def run(ctx):
         it = I.Interp(P, stubs=stubs)
         it.record_calls = True
         try:
-            it.call(sv, [1, vals["tls_client"], vals["tls_auth"], vals["check_crl"], vals["check_time"]])
+            if record_form:
+                it.opaque_decls = True
+                it.mem = {}
+                it.fields = dict(vals, ssl=1)
+                it.call(sv, [1])
+            else:
+                it.call(sv, [1] + [vals[nm] for nm in names])
         except I.Unsupported as e:
             raise Broken("C09.R2: set_verify cannot be folded (%s)" % e)
         want_mode = (SSL_VERIFY_PEER | (0 if vals["tls_client"] else SSL_VERIFY_FAIL_IF_NO_PEER_CERT)) if vals["tls_auth"] else SSL_VERIFY_NONE
@@ -347,44 +450,7 @@ def run(ctx):
 
     # ------------------------------------------------------------------ R5
     r5 = ctx.rule("C09.R5", "policy inheritance (server -> accepted connection) covers every policy field")
-    rec = P.record("btls_socket")
-    # policy fields: everything of the socket record that the policy functions read
-    policy_readers = [sv, P.fn("finalize_tls_conf"), P.fn("enable_hostname_validation"), bt.slots["connect"], bt.slots["accept"]]
-    cand = set()
-    top_fields = {fl["name"]: (fl.get("type") or fl.get("t") or "") for fl in rec["fields"]}
-    for f in policy_readers:
-        for n in f.nodes.values():
-            if n["k"] == "member" and n.get("record") == "btls_socket" and n["field"] in top_fields:
-                t = top_fields[n["field"]]
-                if t in ("_Bool", "bool") or t.startswith("struct item") or "slist" in t:
-                    cand.add(n["field"])
-    policy = sorted(x for x in cand if not x.endswith("_set"))
-    if len(policy) < 9:
-        raise Broken("C09.R5: only %d policy fields recognised: %s" % (len(policy), policy))
-    inh = P.fn("inherit_tls_conf")
-    covered = set()
-    for b, i, e, lhs, rhs, op in inh.stores():
-        ln = inh.sn(lhs)
-        if ln["k"] == "member" and rhs is not None:
-            srcs = {inh.nodes[x]["field"] for x in inh.walk(rhs) if inh.nodes[x]["k"] == "member" and inh.nodes[x].get("record") == "btls_socket"}
-            if ln["field"] in srcs:
-                covered.add(ln["field"])
-    for c in inh.calls("item_copy"):
-        a = inh.nodes[c]["args"]
-        f0, f1 = inh.fields_of(a[0])[-1:], inh.fields_of(a[1])[-1:]
-        if f0 == f1 and f0:
-            covered.add(f0[0])
-    for fld in policy:
-        r5.instance("btls_socket.%s" % fld)
-        if fld in covered:
-            r5.ok("%s is copied from the parent" % fld, "field coverage")
-        else:
-            r5.violation("inherit_tls_conf:%s" % fld, "policy field %s is not inherited from the server socket: accepted connections run with the default "
-                         "instead of the server's setting" % fld, loc=inh.file)
-    # init calls it for accepted sockets
-    ini = bt.slots["init"]
-    if not any(True for _ in ini.calls("inherit_tls_conf")):
-        r5.violation("%s:no-inherit" % ini.name, "init does not inherit the parent's TLS configuration", loc=ini.file)
+    check_inheritance(P, bt, sv, r5)
 
     # ------------------------------------------------------------------ R6
     r6 = ctx.rule("C09.R6", "inconsistent policy combinations are refused with EINVAL before a context is looked up")
